@@ -569,3 +569,11 @@ def run(ctx):
         ctx.guarded(r, AK.check_call_helper, "grad_slice", n)
     r = ctx.rule("R6b", "x86_64 gradient assembler: single-instruction builders and moves act on all four lanes of their operands", 9)
     ctx.guarded(r, AC.check_simple_builders, "grad_slice")
+    from .. import a64checks as XC
+
+    r = ctx.rule("R6c", "aarch64 gradient assembler: write discipline, hazards (all four lanes written), branch targets, call helpers restore and marshal all four lanes, single-instruction builders", 23 + 24 + 5 + 2 + 8)
+    ctx.guarded(r, XC.check_write_discipline, "grad_slice")
+    ctx.guarded(r, XC.check_hazards, "grad_slice")
+    ctx.guarded(r, XC.check_branches, "grad_slice")
+    ctx.guarded(r, XC.check_call_helpers, "grad_slice")
+    ctx.guarded(r, XC.check_simple_builders, "grad_slice")
